@@ -196,6 +196,7 @@ def _judge_dict(rec, ctx, result, topology, hook, kinds):
                 ok = (d <= tol) | (np.abs(meta["sin_theta"]) < 1e-6) | (tol > 1e-3)
             else:
                 ok = (d <= tol) | (tol > 1e-3)
+            feats["ancestor_momentum_exactly_on_z_axis"] = bool(meta["ancestor_pt_exactly_zero"].any())
             nonfinite = ~np.isfinite(v) & ~on_axis
             if nonfinite.any():
                 i = int(np.argmax(nonfinite))
